@@ -17,6 +17,7 @@ import (
 type SelectRelation struct {
 	ExecutableStatement
 	Limit                  int
+	hasLimit               bool // a LIMIT clause is present; Limit == 0 alone means "no limit"
 	OrderBy                []SortItem
 	SelectList             []*AliasedIdentifier
 	IsPrimary, IsSelectAll bool
@@ -614,7 +615,7 @@ func (sr *SelectRelation) Materialize(aggRunner *AggRunner, catDir *catalog.Dire
 	/*
 		Enforce LIMIT on the final results
 	*/
-	if sr.Limit != 0 {
+	if sr.hasLimit || sr.Limit != 0 {
 		outputColumnSeries.RestrictLength(sr.Limit, io.FIRST)
 	}
 
